@@ -98,7 +98,7 @@ def run(tier):
     n = 250 if tier == 'quick' else 2000
     try:
         for i in range(n):
-            mode = R.choice(['plain', 'plain', 'fastpath', 'hdf5', 'fail-rows', 'fail-missing', 'window', 'nonfinite-cast', 'nonfinite-cast'])
+            mode = R.choice(['plain', 'plain', 'fastpath', 'fastpath', 'hdf5', 'fail-rows', 'fail-missing', 'window', 'nonfinite-cast', 'nonfinite-cast'])
             spec = filegen.gen_spec(R, n_lf=1, small=True, fastpath=(mode == 'fastpath'),
                                     rows=R.choice([2, 3, 5]), vrl=R.choice([8192, 64]))
             if mode == 'hdf5':
@@ -109,6 +109,9 @@ def run(tier):
                             o['dataset_name'] = o['dataset_name'].strip('/').replace('/', '_')
             spec['write'].setdefault('source_opts', {})['tmpdir'] = tmp
             spec['write']['source_opts']['h5name'] = 'src19.h5'
+            if spec['write']['data_kind'] == 'struct':
+                # the structured array as an owning array, or as a view of something larger that the caller owns too
+                spec['write']['source_opts']['struct_view'] = [None, 'slice', 'slice-of-slice', 'bytes'][i % 4]
             if mode == 'window':
                 spec['write']['from_idx'] = 1
             if mode == 'nonfinite-cast':
